@@ -93,6 +93,11 @@ def strip_keep(e):
     return strip(e)
 
 
+# answers a checked form may give outside its unchecked twin's contract (reviewed): the cap helper answers 100 for block sizes at or above
+# the capping border, where the `_unchecked`/`_internal` form must not be called (SA-FORMULA / SA-PATHSUM read that arm)
+SAFE_ONLY_ARMS = {"score_cap_on_block_hash_comparison": ("100",)}
+
+
 def twins(ctx, prog, scope=None, floor=None):
     ctx.rule(R, "twin delegation: every exported `X_unchecked` (unsafe fn) is a single call of `X_internal` with its parameters in order, and the safe `X` computes the same internal call with the same arguments after its guards (normal forms of the two bodies, with pure delegating functions expanded, are equal)")
     n = 0
@@ -157,6 +162,23 @@ def twins(ctx, prog, scope=None, floor=None):
                         carms.append("Some(%s)" % inner[:100])
         ctx.ob(R, "safe %s computes the same internal call as its unchecked twin (on its in-contract arm)" % safe.short, same,
                "safe arms: %s | unchecked: %s" % ([c[:140] for c in carms], (cu or "?")[:160]), safe.loc())
+        # ... and nothing else: a second way of producing an answer in the checked form (a "fast path") is a second implementation
+        # that the unchecked twin does not have.  Refusals (`None`, panics) are not answers.
+        extra = []
+        for a in arms:
+            ca = tcanon(a)
+            a = strip(a)
+            if ca == cu or (a[0] == "agg" and a[1].endswith("Option::None")):
+                continue
+            if a[0] == "call" and a[1].endswith("bool>::then"):
+                continue
+            if a[0] == "agg" and a[1].endswith("Option::Some") and len(a[2]) == 1 and tcanon(expand(prog, a[2][0])) == cu:
+                continue
+            if ca in SAFE_ONLY_ARMS.get(safe.path.split("::")[-1], ()):
+                continue
+            extra.append(ca[:120])
+        ctx.ob(R, "safe %s has no answer of its own besides the internal call (refusals aside)" % safe.short, not extra,
+               "own answers: %s" % extra if extra else "none", safe.loc())
     ctx.floor(R, n, 24 if floor is None else floor, "*_unchecked functions with bodies%s" % ("" if scope is None else " in scope"))
 
 
